@@ -66,10 +66,14 @@ def type_test(ip, st, v, tyname):
         if isinstance(v, Opaque) and v.sort == "Key":
             return TRUE
         if isinstance(v, Opaque) and v.sort == "Val":
+            if ip.known(st, T("(isD %s)" % v.t.s, "Bool")):
+                return FALSE
             f = ip.reg.ufun("is_str_Val", ["Val"], "Bool")
             return AND(NOT(T("(isD %s)" % v.t.s, "Bool")), T("(%s %s)" % (f, v.t.s), "Bool"))      # a dict is not a str
         if isinstance(v, Ref) and isinstance(st.heap[v.cid], ValCell):
             t = ip.deref(st, v)
+            if ip.known(st, T("(isD %s)" % t.s, "Bool")):
+                return FALSE
             f = ip.reg.ufun("is_str_Val", ["Val"], "Bool")
             return AND(NOT(T("(isD %s)" % t.s, "Bool")), T("(%s %s)" % (f, t.s), "Bool"))
         if isinstance(v, Opaque) and v.sort in ("V", "Obj"):
@@ -114,6 +118,12 @@ def isinstance_(ip, st, v, cls):
             t = v.t
         if t is not None:
             return ext_instance(ip, t, cls.mod, cls.name)
+        if cls.mod == "numbers" and cls.name == "Number":
+            # the abstract base class of python's numbers: ints, floats, bools are; sequences, strings, None are not
+            if isinstance(v, (Num, Bool)):
+                return TRUE
+            if isinstance(v, (Tup, View, Str, NoneV)) or (isinstance(v, Ref) and not isinstance(st.heap[v.cid], ObjCell)):
+                return FALSE
         raise U("isinstance against the external class %s.%s" % (cls.mod, cls.name))
     if isinstance(cls, Fun) and cls.kind == "class":
         if isinstance(v, Ref) and isinstance(st.heap[v.cid], ObjCell):
@@ -136,11 +146,6 @@ def isinstance_(ip, st, v, cls):
             f = ip.reg.ufun("isinst_%s_%s" % (cls.name, v.sort), [v.sort], "Bool")
             return T("(%s %s)" % (f, v.t.s), "Bool")
         return FALSE
-    if isinstance(cls, Fun) and cls.kind == "external" and cls.mod == "numbers" and cls.name == "Number":
-        if isinstance(v, (Num, Bool)):
-            return TRUE
-        if isinstance(v, (Tup, View, Str, NoneV)) or (isinstance(v, Ref) and not isinstance(st.heap[v.cid], ObjCell)):
-            return FALSE
     raise U("isinstance against %r" % (cls,))
 
 
@@ -356,6 +361,14 @@ def call_builtin(ip, st, name, pos, kws, node):
         t = getattr(v, "term", None)
         if t is None:
             sample = v.get(I(0))
+            if isinstance(sample, Tup):
+                # a list of tuples has no list term: an immutable snapshot of the items that still is a `list`
+                # (a later store into it / identity test on it is out-of-subset)
+                nv = View(v.len, v.get)
+                nv.pykind = "list"
+                if getattr(v, "guard_len", None) is not None:
+                    nv.guard_len = v.guard_len
+                return [(st, nv)]
             sort = sv_lst_sort(ip, sample)
             from .calls import materialise
             t = materialise(ip, st, v, sort)
@@ -390,12 +403,20 @@ def call_builtin(ip, st, name, pos, kws, node):
             if ip.c is not None and ip.c.dict_model == "Val":
                 return [(st, ip.new_cell(st, ValCell(T("(D emptymap)", "Val"))))]
             return [(st, ip.new_cell(st, PyDictCell({})))]
+        if len(pos) == 1 and not kws and isinstance(pos[0], Fun) and (pos[0].kind == "dictpairs" or
+                                                                     (pos[0].kind == "dictview" and pos[0].name == "items")):
+            # dict(<all the items of d>): a new dictionary with the same items
+            from .dicts import dterm
+            return [(st, ip.new_cell(st, ValCell(dterm(ip, st, pos[0].recv))))]
         raise U("dict(...)")
     if name == "object":
         return [(st, Sentinel("anon%d" % next(ip.cid)))]
     if name == "id":
         raise U("id()")
     if name == "sorted":
+        if len(pos) == 1 and isinstance(pos[0], Fun) and pos[0].kind == "dictview" and pos[0].name == "items":
+            # sorted(d.items(), key=...): the items of d in some order (dictionary VALUES are order-free in the encoding)
+            return [(st, Fun("dictpairs", recv=pos[0].recv))]
         raise U("sorted")
     if name == "type":
         raise U("type()")
@@ -512,6 +533,18 @@ def list_method(ip, st, recv, name, pos, kws):
     if name in ("append", "extend", "insert") and pos:
         from .dicts import note_store
         note_store(ip, st, recv, pos[-1])
+    if name == "append" and el == "Key" and not recv.path and not (isinstance(pos[0], Str) or
+                                                                  (isinstance(pos[0], Opaque) and pos[0].sort == "Key")):
+        # a list of strings that receives a value of another kind (parts = s.split('.'); parts.append(value)): from now
+        # on a list of context values; its strings are embedded by key_as_val (dicts.scalar)
+        from .dicts import dterm, key_as_val
+        reg.need_val()
+        vsort = reg.lst("Val")
+        n = reg.l_len(t)
+        arr = "(lambda ((pi Int)) (ite (< pi %s) %s %s))" % (
+            n.s, key_as_val(ip, T("(select %s pi)" % reg.l_arr(t).s, "Key")).s, dterm(ip, st, pos[0]).s)
+        st.heap[recv.cid] = LstCell(T("(mk_%s %s (+ %s 1))" % (vsort, arr, n.s), vsort))
+        return [(st, NONE)]
     if name == "append":
         v = elem_term(ip, st, pos[0], el)
         ip.store(st, recv, reg.l_append(t, v))
